@@ -453,7 +453,19 @@ def tie_steps(model, case, jr, its, lims_json, mism, tags, max_report=3):
                 ta = r["tau_attempt"]
                 tau_ok_obs = not it["retry"]
                 if ta["outcome"] == "checked":
-                    if ta["success"] != tau_ok_obs:
+                    near = False
+                    if ta["success"] != tau_ok_obs and np.any(np.ravel(it["pure"])) and tau_m is not None:
+                        # x + pure*tau is a rounded float in the code and an exact rational in the model: a proposal that
+                        # lands on a limit to within rounding may be judged differently (not a disagreement of algorithms)
+                        prop = x + np.asarray(it["V"], float).reshape(nS, nE).dot(np.array([v for _, v in it["pois"]], float)) \
+                            + np.ravel(it["pure"]) * float(tau_m)
+                        for (lo, hi), pv in zip(lims_json, prop):
+                            for b in (lo, hi):
+                                if b is not None and abs(pv - b) <= 1e-9 * max(1.0, abs(b)):
+                                    near = True
+                        if near:
+                            tags.append("float_boundary_tie_skipped")
+                    if ta["success"] != tau_ok_obs and not near:
                         mm("tau:accept/reject", "%s: model tau-leap success=%s new_x=%s, code %s" % (where, ta["success"], [float(Fraction(v)) for v in ta["x"]], "accepted" if tau_ok_obs else "retried by first reaction"))
                     if not ta["success"]:
                         stats["rejected_tau"] += 1
@@ -464,7 +476,9 @@ def tie_steps(model, case, jr, its, lims_json, mism, tags, max_report=3):
             if r["out"] != "next":
                 mm("step:stop-vs-append", "%s: model stops (%s), code appended x=%s" % (where, r.get("why"), X[k + 1].tolist()))
                 break
-            integral = bool(np.all(np.mod(X[k + 1], 1) == 0) and np.all(np.mod(x, 1) == 0))
+            # integer arithmetic is exact in doubles; with an explicit ODE term (x + pure*tau) the float is only close
+            integral = bool(np.all(np.mod(X[k + 1], 1) == 0) and np.all(np.mod(x, 1) == 0)
+                            and not np.any(np.ravel(it.get("pure", 0.0))))
             if not same_vec(r["x"], X[k + 1], None if integral else 1e-9):
                 mm("step:post-state", "%s: model x=%s code x=%s" % (where, [float(Fraction(v)) for v in r["x"]], X[k + 1].tolist()))
             if not close(Fraction(r["t"]), T[k + 1]):
